@@ -957,16 +957,20 @@ func validatePointer[T any](
 		return ptr, nil
 	}
 
+	// The validator decides: container-level checks and every member schema. An overwrite
+	// check must not bypass it.
+	v, err := validator(value, checks, ctx)
+	if err != nil {
+		return nil, err
+	}
+
+	// Pointer-constraint schemas overwrite through the pointer (the check receives *T).
 	if hasOverwriteCheck(checks) {
 		if np, changed := validatePointerWithOverwrite(ptr, checks, ctx); changed {
 			return np, nil
 		}
 	}
 
-	v, err := validator(value, checks, ctx)
-	if err != nil {
-		return nil, err
-	}
 	*ptr = v
 	return ptr, nil
 }
